@@ -76,6 +76,8 @@ def frame_of_name(name):
         return "FCaller"
     if name == "prep_site":
         return {"FHelper": [-1]}
+    if name == "provider":
+        return {"FHelper": [-2]}
     m = re.match(r"^lvl_(\d+)$", name)
     if m:
         return {"FTask": [int(m.group(1))]}
@@ -377,9 +379,52 @@ def make_readers(k, rs, fut, via_call, seen):
     return fns
 
 
+def make_shared(fk, src, meta):
+    """A failed future that is not a task, holding an exception instance it was handed: the error a
+    failed task ended with.  None: the task did not fail."""
+    sk, sa = ctor(src)
+    if sk == "EOfTask":
+        err = make_chain(sa[0], sa[1], meta)[0].asynq().error()
+        if err is None:
+            return None
+    else:
+        raise ValueError(sk)
+    if fk == "KErrorFuture":
+        return ErrorFuture(err)
+    if fk == "KSetError":
+        f = FutureBase()
+        f.set_error(err)
+        return f
+    if fk == "KLazy":
+        def provider():
+            raise err
+        return Future(named(provider, "provider"))
+    if fk == "KItem":
+        class SharedErrorBatch(BatchBase):
+            def _try_switch_active_batch(self):
+                pass
+
+            def _flush(self):
+                for item in self.items:
+                    item.set_error(err)
+        return BatchItemBase(SharedErrorBatch())
+    raise ValueError(fk)
+
+
+def run_shared(fk, src, drv, observers, meta):
+    fut = make_shared(fk, src, meta)
+    if fut is None:
+        return {"out": {"RObserve": [["None"] * len(observers)]}, "obs": {"observers": [{"raised": False}] * len(observers)}}
+    return observe_future(fut, drv, observers, meta)
+
+
 def run_observe(ms, bottom, drv, observers, meta):
     fns = make_chain(ms, bottom, meta)
     fut = fns[0].asynq()                   # the one task every observer looks at
+    return observe_future(fut, drv, observers, meta)
+
+
+def observe_future(fut, drv, observers, meta):
     sync_via = meta.get("sync_via") or ["value"]
     seen = {}
 
@@ -1589,6 +1634,8 @@ def run_case(c):
         return run_chain(a[0], a[1], meta)
     if k == "CObserve":
         return run_observe(a[0], a[1], a[2], a[3], meta)
+    if k == "CShared":
+        return run_shared(a[0], a[1], a[2], a[3], meta)
     if k == "CStack":
         return run_stack(a[0], a[1], meta)
     if k == "CRepr":
